@@ -539,3 +539,11 @@ def stats_extra(xpid, case, out, acc):
         bump(acc, "extra:C09")
         return
     bump(acc, "extra:C07:" + ("s2" if case and case[0].startswith("s2") else "s1"))
+
+
+# ---------------------------------------------------------------- real nodes through the public API (engine: extra_cases)
+# `Litep2p::new` (src/lib.rs) and `ConfigBuilder` (src/config.rs) hand every protocol its configuration; the `node` area
+# (checks/node.py) builds real nodes, compares the registration record with the wiring model (Model/Node/Wiring.lean)
+# and judges this property's real-time scenarios at node level.
+from . import node as _node  # noqa: E402
+_node.install(globals())
